@@ -56,11 +56,22 @@ impl Message<Work> for BA {
             let p = self.gates[g].acquire().await.unwrap();
             p.forget();
         }
+        if is_panicking_id(m.0) {
+            panic!("injected: handler of message {} panics", m.0);
+        }
         let s = self.seq;
         self.seq += 1;
         self.log.lock().unwrap().push((Instant::now(), Log::Exit(m.0, s)));
         m.0 * 100 + s
     }
+    fn on_tell_result(result: &u32, _r: &ActorRef<Self>) {
+        crate::msched::BT_SINK.lock().unwrap_or_else(|e| e.into_inner()).tell_results.push(*result / 100);
+    }
+}
+
+/// Messages with an id in 90..=99 make their handler panic (after its gate, if it has one).
+pub fn is_panicking_id(id: u32) -> bool {
+    (90..=99).contains(&id)
 }
 
 // ------------------------------------------------------------------ scenario alphabet
@@ -94,6 +105,9 @@ pub enum Ctx {
     InAsync,
     /// async task using the async API, or control actions performed by the coordinator
     Async,
+    /// a plain thread that owns a current-thread runtime and calls the blocking API from async code driven by it
+    /// (only sensible for the timeout variants)
+    InCurrentThread,
 }
 
 #[derive(Debug, Clone, Serialize, Deserialize)]
@@ -141,6 +155,15 @@ pub struct BRun {
     pub log: Vec<(u64, Log)>,
     pub dl_count: Option<u64>,
     pub join: String,
+    #[serde(default)]
+    pub dls: Vec<crate::msched::BtDl>,
+    #[serde(default)]
+    pub logs: Vec<String>,
+    /// message ids for which on_tell_result ran, in order
+    #[serde(default)]
+    pub tell_results: Vec<u32>,
+    #[serde(default)]
+    pub actor_id: u64,
 }
 
 const SETTLE_MS: u64 = 40;
@@ -242,6 +265,11 @@ pub fn run_order(scn: &BScenario, order: &[usize]) -> BRun {
     let gates: Arc<Vec<tokio::sync::Semaphore>> = Arc::new((0..scn.gates).map(|_| tokio::sync::Semaphore::new(0)).collect());
     #[cfg(feature = "f_testutils")]
     rsactor::reset_dead_letter_count();
+    {
+        let mut sink = crate::msched::BT_SINK.lock().unwrap_or_else(|e| e.into_inner());
+        *sink = Default::default();
+    }
+    crate::msched::BT_ACTIVE.store(true, Ordering::SeqCst);
     let t0 = Instant::now();
     let (aref, jh) = {
         let _g = rt.enter();
@@ -262,6 +290,20 @@ pub fn run_order(scn: &BScenario, order: &[usize]) -> BRun {
                 threads.push(std::thread::spawn(move || {
                     while let Ok((idx, op)) = rx.recv() {
                         let res = if erased { do_blocking_erased(&r, &op) } else { do_blocking(&r, &op) };
+                        let _ = res_tx.send((ci, idx, t0.elapsed().as_millis() as u64, res));
+                    }
+                }));
+                cmd_txs.push(Some(tx));
+            }
+            Ctx::InCurrentThread => {
+                let (tx, rx) = mpsc::channel::<(usize, BOp)>();
+                let r = aref.clone();
+                let res_tx = res_tx.clone();
+                let erased = c.erased;
+                threads.push(std::thread::spawn(move || {
+                    let own = tokio::runtime::Builder::new_current_thread().enable_all().build().unwrap();
+                    while let Ok((idx, op)) = rx.recv() {
+                        let res = own.block_on(async { if erased { do_blocking_erased(&r, &op) } else { do_blocking(&r, &op) } });
                         let _ = res_tx.send((ci, idx, t0.elapsed().as_millis() as u64, res));
                     }
                 }));
@@ -306,7 +348,7 @@ pub fn run_order(scn: &BScenario, order: &[usize]) -> BRun {
         // a caller's next operation cannot start before its previous one returned: wait for it (bounded)
         if idx > 0 {
             let prev_pending = ops.iter().any(|o| o.caller == ci && o.idx == idx - 1 && o.res.is_none());
-            if prev_pending && matches!(c.ctx, Ctx::Thread) {
+            if prev_pending && matches!(c.ctx, Ctx::Thread | Ctx::InCurrentThread) {
                 // the thread is still inside its previous call; the command queues up behind it (program order kept)
             }
         }
@@ -366,7 +408,7 @@ pub fn run_order(scn: &BScenario, order: &[usize]) -> BRun {
                     let _ = res_tx.send((ci, idx, t0.elapsed().as_millis() as u64, res));
                 }));
             }
-            (_, Ctx::Thread) => {
+            (_, Ctx::Thread) | (_, Ctx::InCurrentThread) => {
                 cmd_txs[ci].as_ref().unwrap().send((idx, op.clone())).unwrap();
             }
             (_, Ctx::SpawnBlocking) => {
@@ -436,9 +478,15 @@ pub fn run_order(scn: &BScenario, order: &[usize]) -> BRun {
     #[cfg(not(feature = "f_testutils"))]
     let dl_count = None;
     let log: Vec<(u64, Log)> = log.lock().unwrap().iter().map(|(t, l)| (t.duration_since(t0).as_millis() as u64, l.clone())).collect();
+    let actor_id = aref.identity().id;
     drop(aref);
     rt.shutdown_timeout(Duration::from_millis(200));
-    BRun { order: order.to_vec(), ops, log, dl_count, join }
+    crate::msched::BT_ACTIVE.store(false, Ordering::SeqCst);
+    let (dls, logs, tell_results) = {
+        let sink = crate::msched::BT_SINK.lock().unwrap_or_else(|e| e.into_inner());
+        (sink.dls.clone(), sink.logs.clone(), sink.tell_results.clone())
+    };
+    BRun { order: order.to_vec(), ops, log, dl_count, join, dls, logs, tell_results, actor_id }
 }
 
 // ------------------------------------------------------------------ oracles
@@ -514,7 +562,9 @@ pub fn check_run(scn: &BScenario, run: &BRun) -> Vec<(String, String)> {
         }
     }
     // a send fails with Send only when the actor is gone; a full mailbox makes it wait instead
-    let first_end_step = run.ops.iter().filter(|o| matches!(o.op, BOp::Stop | BOp::Kill)).map(|o| o.started_at_step).min();
+    // a message whose handler panics ends the actor too, at some moment after it was dispatched
+    let crash_possible_from = run.ops.iter().filter(|o| op_id(&o.op).map(is_panicking_id).unwrap_or(false)).map(|o| o.started_at_step).min();
+    let first_end_step = run.ops.iter().filter(|o| matches!(o.op, BOp::Stop | BOp::Kill)).map(|o| o.started_at_step).chain(crash_possible_from).min();
     for o in &run.ops {
         if op_id(&o.op).is_none() {
             continue;
@@ -537,7 +587,7 @@ pub fn check_run(scn: &BScenario, run: &BRun) -> Vec<(String, String)> {
         }
     }
     // accepted before the end => handled (tells that returned Ok; the actor is stopped gracefully at the end unless killed)
-    let killed = run.ops.iter().any(|o| matches!(o.op, BOp::Kill));
+    let killed = run.ops.iter().any(|o| matches!(o.op, BOp::Kill)) || crash_possible_from.is_some();
     let stop_step = run.ops.iter().find(|o| matches!(o.op, BOp::Stop)).map(|o| o.started_at_step);
     if !killed {
         for o in &run.ops {
@@ -585,6 +635,67 @@ pub fn check_run(scn: &BScenario, run: &BRun) -> Vec<(String, String)> {
     if let Some(dl) = run.dl_count {
         if dl != failures {
             v("C17 one dead letter per failed delivery", format!("dead_letter_count() = {dl}, failed operations = {failures}"));
+        }
+    }
+    // the records themselves: every one names this actor and the message type, and the reasons are those of the errors
+    {
+        let want_type = std::any::type_name::<Work>();
+        for d in &run.dls {
+            if d.actor_id != run.actor_id || d.msg_type != want_type {
+                v("C17 dead letter names target and message type", format!("record {d:?}; the target is actor {} and the message type {want_type}", run.actor_id));
+            }
+        }
+        let mut want: std::collections::BTreeMap<&str, i64> = Default::default();
+        for o in &run.ops {
+            if op_id(&o.op).is_none() {
+                continue;
+            }
+            if let Some(BRes::Err(e)) = &o.res {
+                let reason = match e.as_str() {
+                    "Send" => "actor stopped",
+                    "Timeout" => "timeout",
+                    "Receive" => "reply dropped",
+                    _ => "?",
+                };
+                *want.entry(reason).or_default() += 1;
+            }
+        }
+        let mut got: std::collections::BTreeMap<&str, i64> = Default::default();
+        for d in &run.dls {
+            *got.entry(d.reason.as_str()).or_default() += 1;
+        }
+        if want != got && run.ops.iter().all(|o| o.res.is_some()) {
+            v("C17 dead letter reasons match the errors", format!("errors returned: {want:?}; dead letters recorded: {got:?}"));
+        }
+        for d in &run.dls {
+            let fam_ok = d.op.contains("tell") || d.op.contains("ask");
+            if !fam_ok {
+                v("C17 dead letter names the operation", format!("record {d:?}"));
+            }
+        }
+    }
+    // on_tell_result: exactly once after a tell whose handler returned, never after an ask
+    for o in &run.ops {
+        let Some(id) = op_id(&o.op) else { continue };
+        let exited = run.log.iter().any(|(_, l)| matches!(l, Log::Exit(i, _) if *i == id));
+        let n = run.tell_results.iter().filter(|x| **x == id).count();
+        if is_ask(&o.op) && n != 0 {
+            v("C17 on_tell_result never after an ask", format!("op {:?}: on_tell_result ran {n} time(s)", o.op));
+        }
+        if is_tell(&o.op) && exited && n != 1 {
+            v("C17 on_tell_result exactly once after a tell", format!("op {:?}: the handler returned, on_tell_result ran {n} time(s)", o.op));
+        }
+        if is_tell(&o.op) && !exited && n != 0 {
+            v("C17 on_tell_result exactly once after a tell", format!("op {:?}: the handler never returned, yet on_tell_result ran {n} time(s)", o.op));
+        }
+    }
+    // the framework itself logs nothing at warn level or above about a delivery that went well
+    for l in &run.logs {
+        if l.contains("Failed to send reply") {
+            let gave_up = run.ops.iter().any(|o| is_ask(&o.op) && matches!(&o.res, Some(BRes::Err(e)) if e == "Timeout"));
+            if !gave_up {
+                v("C17 on_tell_result exactly once after a tell", format!("the framework logged {l:?} although no asker gave up: a tell was sent as an ask"));
+            }
         }
     }
     if run.join == "JoinTimeout" {
@@ -738,6 +849,52 @@ pub fn scenarios(thorough: bool) -> Vec<BScenario> {
             ],
         });
     }
+    // S12: a long bounded call is legitimately waiting when a short one starts: the short one has its own deadline
+    v.push(BScenario {
+        name: "b12-long-and-short-deadline".into(),
+        cap: 2,
+        gates: 1,
+        callers: vec![
+            BCaller { erased: false, ctx: Ctx::Thread, ops: vec![t(1, Some(0), None), a(2, None, Some(2500))] },
+            BCaller { erased: false, ctx: Ctx::Thread, ops: vec![a(3, None, Some(50))] },
+            BCaller { erased: false, ctx: Ctx::Async, ops: vec![BOp::Wait(1000), BOp::OpenGate(0)] },
+        ],
+    });
+    // S13: timeout variants called from async code that a current-thread runtime drives
+    v.push(BScenario {
+        name: "b13-in-current-thread-runtime".into(),
+        cap: 2,
+        gates: 1,
+        callers: vec![
+            BCaller { erased: false, ctx: Ctx::InCurrentThread, ops: vec![t(1, None, Some(60)), a(2, Some(0), Some(60))] },
+            BCaller { erased: true, ctx: Ctx::InCurrentThread, ops: vec![a(3, None, Some(60))] },
+            BCaller { erased: false, ctx: Ctx::Async, ops: vec![BOp::OpenGate(0)] },
+        ],
+    });
+    // S14: a handler panics while callers of the no-timeout forms are parked on the full mailbox, and while an
+    // asker waits for the reply of the panicking handler itself
+    v.push(BScenario {
+        name: "b14-crash-parked".into(),
+        cap: 1,
+        gates: 1,
+        callers: vec![
+            BCaller { erased: false, ctx: Ctx::Thread, ops: vec![t(90, Some(0), None), t(2, None, None)] },
+            BCaller { erased: false, ctx: Ctx::Thread, ops: vec![t(3, None, None)] },
+            BCaller { erased: false, ctx: Ctx::SpawnBlocking, ops: vec![a(4, None, None)] },
+            BCaller { erased: false, ctx: Ctx::Async, ops: vec![BOp::OpenGate(0)] },
+        ],
+    });
+    v.push(BScenario {
+        name: "b15-crash-asker-waiting".into(),
+        cap: 2,
+        gates: 1,
+        callers: vec![
+            BCaller { erased: false, ctx: Ctx::Thread, ops: vec![a(91, Some(0), None)] },
+            BCaller { erased: false, ctx: Ctx::Thread, ops: vec![a(2, None, Some(400)), t(3, None, None)] },
+            BCaller { erased: true, ctx: Ctx::SpawnBlocking, ops: vec![a(4, None, None)] },
+            BCaller { erased: false, ctx: Ctx::Async, ops: vec![BOp::OpenGate(0)] },
+        ],
+    });
     // S6: unusual timeout values
     v.push(BScenario {
         name: "b6-extreme-timeouts".into(),
